@@ -286,8 +286,14 @@ def assignAll (bs : Nat) : State → List Nat → Except Err (State × List BA)
       | .error e => .error e
       | .ok (s2, bas) => .ok (s2, ba :: bas)
 
+def nodupB : List Nat → Bool
+  | [] => true
+  | x :: xs => !xs.contains x && nodupB xs
+
+/-- a request naming a blobber twice is rejected by the code (`len(spMap) != len(blobbers)`: the stake pool map has one
+entry per distinct id): the blobbers of an allocation are pairwise distinct. -/
 def newAlloc (s : State) (j data size value : Nat) (chosen : List Nat) : R :=
-  if data = 0 then .error (.inadm "no-data-shards") else
+  if data = 0 ∨ nodupB chosen = false then .error (.inadm "no-data-shards-or-duplicate-blobber") else
   match assignAll (bsize size data) s chosen with
   | .error e => .error e
   | .ok (s1, bas) =>
@@ -606,11 +612,31 @@ def sumCr : List (Nat × Nat) → Nat
   | [] => 0
   | (_, c) :: rest => c + sumCr rest
 
+/-- the bound on what a close credits: per blobber allocation, with the pass rate `succ/total` that
+`settleOpenChallengesAndGetPassRates` yields and `cc` its share of the cancellation charge,
+`credited ≤ challenge value · succ/total + cc` (one unit of slack per factor for the float64 truncations). -/
+def payBounded : List BA → List (Nat × Nat) → List (Nat × Nat × Nat) → Bool
+  | [], [], [] => true
+  | d :: ds, (_, cr) :: ps, (succ, total, cc) :: rs =>
+    decide (0 < total ∧ cr * total ≤ d.cv * succ + (cc + 1) * total) && payBounded ds ps rs
+  | _, _, _ => false
+
+def sumCc : List (Nat × Nat × Nat) → Nat
+  | [] => 0
+  | (_, _, cc) :: rest => cc + sumCc rest
+
+/-- `storageAllocationBase.cost()`: Σ `WritePrice · sizeInGB` = Σ offers -/
+def costOf : List BA → Nat
+  | [] => 0
+  | d :: ds => d.offer + costOf ds
+
 /-- `finalizeAllocation` (`fin = true`) / `cancelAllocationRequest`. Checks in the order of the code. `X` (observed) =
 tokens debited from the allocation's two pools for the blobbers (challenge rewards out of the challenge pool,
-cancellation charge out of the write pool); the credited amounts cannot exceed it; everything else,
+cancellation charge out of the write pool); the credited amounts cannot exceed it and are bounded per blobber by
+`payBounded` (`rates`: observed pass rates and charge shares); everything else,
 `WritePool + cp − X`, is transferred to the owner; challenge pool node and allocation node are deleted. -/
-def close (s : State) (fin : Bool) (k : Nat) (caller : Caller) (X : Nat) (per : List (Nat × Nat)) : R :=
+def close (s : State) (fin : Bool) (k : Nat) (caller : Caller) (X : Nat) (per : List (Nat × Nat))
+    (rates : List (Nat × Nat × Nat)) : R :=
   match s.allocs k with
   | none => .error (.fail "absent")
   | some a =>
@@ -626,6 +652,7 @@ def close (s : State) (fin : Bool) (k : Nat) (caller : Caller) (X : Nat) (per : 
       | none => .error (.fail "other")
       | some cp =>
         if a.wp + cp < X ∨ X < sumCr per then .error (.inadm "close-amounts") else
+        if !payBounded a.bas per rates || decide (costOf a.bas / 5 + a.bas.length < sumCc rates) then .error (.inadm "blobbers-overpaid") else
         match closeBlobbers s a.bas per with
         | none => .error (.inadm "close-blobbers")
         | some s1 =>
@@ -649,7 +676,7 @@ inductive Op where
   | update (k : Nat) (caller : Caller) (value size : Nat) (ext : Bool) (add rem : Option Nat) (rw cc dp : Nat) (ds : List Int)
   | commit (k i : Nat) (size : Int) (move : Nat)
   | respPass (k i D m V dp : Nat) (credits : List (Nat × Nat))
-  | close (fin : Bool) (k : Nat) (caller : Caller) (X : Nat) (per : List (Nat × Nat))
+  | close (fin : Bool) (k : Nat) (caller : Caller) (X : Nat) (per : List (Nat × Nat)) (rates : List (Nat × Nat × Nat))
   | wpLock (k j value : Nat)
   | rpLock (j value : Nat)
   | rpUnlock (j amt : Nat)
@@ -671,7 +698,7 @@ def step (s : State) : Op → R
   | .update k c value size ext add rem rw cc dp ds => update s k c value size ext add rem rw cc dp ds
   | .commit k i size move => commit s k i size move
   | .respPass k i D m V dp credits => respPass s k i D m V dp credits
-  | .close fin k c X per => close s fin k c X per
+  | .close fin k c X per rates => close s fin k c X per rates
   | .wpLock k j value => wpLock s k j value
   | .rpLock j value => rpLock s j value
   | .rpUnlock j amt => rpUnlock s j amt
